@@ -51,6 +51,17 @@ claim('C02', _INJ +
       'Trusted: TLC; identity of sentinel objects; the ast-based static leg is skipped (and reported) if sinter internals are renamed.',
       'TLA+ spec (Inject.tla) + TLC + sentinel-object replay of TLC-generated configurations + static wiring comparison',
       'DESIGN.md 3/C02')
+claim('C03',
+      'TLC model-checks Onion.tla: merge of three middleware levels (outer application, embedded application, route; unique / '
+      'non-unique / non-reorderable types) equals the documented order, and the request stack machine (one action per function '
+      'entry, next() call, return, raise; one misbehaving function per behaviour: raise before/after next, short-circuit, swallow; '
+      'endpoint returning context / Response / raising) satisfies ProperNesting, PhaseOrder, RenderIff, ShortCircuit, PassThrough, '
+      'Complete in every reachable state. Bound to the code: TLC-emitted behaviours (full enter/return/raise traces with the identity '
+      'of the value in flight) are replayed through real nested Applications with recording middlewares and compared event by event.',
+      'Trusted: TLC; recording middlewares written by the harness; unique type listed twice in ONE list and the ValueError for '
+      'non-reorderable duplicates are outside the model.',
+      'TLA+ spec (Onion.tla) + TLC exhaustive + replay of TLC-generated behaviours with event-trace comparison',
+      'DESIGN.md 3/C03')
 claim('C04', _INJ +
       'C04 instance: reserved names admitted as URL bindings, resources and provides, both malformations enabled; every pair of '
       'source kinds (url/resource/builtin/middleware within and across phases and levels) is enumerated exhaustively; replayed '
